@@ -219,7 +219,18 @@ impl FileSpec {
         self.o_discriminant.is_some()
     }
     pub(crate) fn uses_timestamp(&self) -> bool {
-        matches!(self.timestamp_cfg, TimestampCfg::Yes)
+        matches!(
+            self.timestamp_cfg,
+            TimestampCfg::Yes | TimestampCfg::Fixed(_)
+        )
+    }
+
+    // Determines the start time now, if a timestamp is used, such that all files of a writer,
+    // and all later evaluations of their names, get the same value.
+    pub(crate) fn fix_timestamp(&mut self) {
+        if let Some(timestamp) = self.timestamp_cfg.get_timestamp() {
+            self.timestamp_cfg = TimestampCfg::Fixed(timestamp);
+        }
     }
 
     // If no decision was done yet, decide now whether to include a timestamp
@@ -465,6 +476,8 @@ const TS_USCORE_DASHES_USCORE_DASHES: &str = "%Y-%m-%d_%H-%M-%S";
 enum TimestampCfg {
     Default,
     Yes,
+    // the start time, determined when the writer was built
+    Fixed(String),
     No,
 }
 impl TimestampCfg {
@@ -475,6 +488,7 @@ impl TimestampCfg {
                     .format(TS_USCORE_DASHES_USCORE_DASHES)
                     .to_string(),
             ),
+            Self::Fixed(timestamp) => Some(timestamp.clone()),
             Self::No => None,
         }
     }
